@@ -160,7 +160,7 @@ def run_cases(ctx, cases, res, stream):
 def s05_tables(ctx):
     import_fractopo()
     res = StreamResult("S05-tables", rule="random/adversarial branch lists (repeats, reversals, closed, hubs, ends on / near / off "
-                       "boundaries of 1-2 areas incl. adjacent, overlapping, holes, multipolygons); non-trivial = distinct node-table "
+                       "boundaries of 1-2 areas incl. adjacent, overlapping, holes, multipolygons; thresholds 1e-8 .. 0.1, distinct ends 2.5 x threshold apart); non-trivial = distinct node-table "
                        "with a node of degree >= 3 or an E-node")
     rng = rng_for(ctx.seed, "S05")
     cases = []
@@ -168,7 +168,7 @@ def s05_tables(ctx):
         pass  # corpus cases are replayed through `replay`
     n = budget(ctx.tier, 250, 6000)
     for i in range(n):
-        t = rng.choice([0.001, 0.01, 0.0001, 0.1])
+        t = rng.choice([0.001, 0.01, 0.0001, 0.1, 1e-6, 1e-8])
         branches, areas, kind = gen_case(rng, t)
         if not branches:
             continue
